@@ -53,7 +53,7 @@ CHECKS = {
                 "an accepted input is consumed entirely by emitted fields (c05_done_exact), depletion is only reported with the input exhausted (take_depleted), the "
                 "carried command code is the last commandCode event (c05_cc); for conforming values any appended suffix is left untouched (c05_surplus_walker, from "
                 "decode_ok). The truncation clause (events of every complete field, then depleted) is monitored at every cut point against the whole-input decode and tied "
-                "by correspondence; the empty input is included (defect fixed: 48b77c1).",
+                "by correspondence; the empty input is included (defect fixed: 48b77c1). Decoding below a caller-supplied root path (root_path=) is modelled (marshalRunAt) and proved to be the default-root observation re-rooted for every layout, message, mode, root and input (Reroot.lean, c05_root_path), tied by the DECR correspondence.",
         "technique": "Lean 4 proofs (accounting invariant + pump case analysis) + truncation/suffix enumeration",
         "design_ref": "DESIGN.md §8 C05",
     },
